@@ -493,39 +493,95 @@ def _check_link_inds(ctx, r):
     else:
         r.bad(Finding("pairing", "TensorNetwork._link_inds", "ind_map entry is not created/extended with the tid",
                       where=f"{f.module.relpath}:{f.lineno}", operand="entry"))
-    # _unlink_inds: occurences == 0 -> del entry, outer.discard ; == 1 -> inner.discard, outer.add
+    # _unlink_inds: abstract interpretation over the number of holders that remain after the tid is discarded
+    # (0, 1, >= 2): which statements run for each, and what they do to the entry and the inner / outer sets
     f = ctx.prog.func(tc, "TensorNetwork._unlink_inds")
-    branches = {}
     var = None
+    loop = None
     for n in ast.walk(f.node):
         if isinstance(n, ast.For) and isinstance(n.target, ast.Name):
-            var = n.target.id
-    for n in ast.walk(f.node):
-        if isinstance(n, ast.If) and isinstance(n.test, ast.Compare) and isinstance(n.test.ops[0], ast.Eq):
-            v = const_value(n.test.comparators[0], None)
-            branches[v] = n.body
-            for e in n.orelse:
-                if isinstance(e, ast.If) and isinstance(e.test, ast.Compare) and isinstance(e.test.ops[0], ast.Eq):
-                    branches[const_value(e.test.comparators[0], None)] = e.body
-    if var is None or 0 not in branches or 1 not in branches:
-        raise AnalysisError("_unlink_inds lost its occurrence-count dispatch")
-    e0 = _stmts_effects(branches[0], var)
-    e1 = _stmts_effects(branches[1], var)
-    del0 = any(isinstance(s, ast.Delete) and src_of(s.targets[0]) == f"self.ind_map[{var}]" for s in branches[0])
-    # an index that disappears may have been inner (repeated index on one
-    # tensor) or outer: at least outer must be discarded
-    if ("_outer_inds", "discard") in e0 and del0 and not any(op == "add" for _, op in e0):
-        r.ok("TensorNetwork._unlink_inds[0]", sample={"occurrences": 0, "effects": sorted(e0) + ["del ind_map entry"]})
-    else:
-        r.bad(Finding("pairing", "TensorNetwork._unlink_inds",
-                      f"occurrences==0 branch: effects {sorted(e0)}, del entry={del0}; expected entry deleted and outer discarded",
-                      where=f"{f.module.relpath}:{f.lineno}", operand="0"))
-    if e1 == {("_inner_inds", "discard"), ("_outer_inds", "add")}:
-        r.ok("TensorNetwork._unlink_inds[1]", sample={"occurrences": 1, "effects": sorted(e1)})
-    else:
-        r.bad(Finding("pairing", "TensorNetwork._unlink_inds",
-                      f"occurrences==1 branch: effects {sorted(e1)}, expected inner discarded and outer added",
-                      where=f"{f.module.relpath}:{f.lineno}", operand="1"))
+            var, loop = n.target.id, n
+    if loop is None:
+        raise AnalysisError("_unlink_inds lost its per-index loop")
+    # names standing for the remaining holders: the entry set and its length
+    set_names, len_names = set(), set()
+    for n in ast.walk(loop):
+        if isinstance(n, ast.Assign) and isinstance(n.targets[0], ast.Name):
+            v = n.value
+            if isinstance(v, ast.Subscript) and src_of(v.value) == "self.ind_map":
+                set_names.add(n.targets[0].id)
+            if isinstance(v, ast.Call) and isinstance(v.func, ast.Name) and v.func.id == "len" and v.args and (
+                    (isinstance(v.args[0], ast.Name) and v.args[0].id in set_names) or src_of(v.args[0]).startswith("self.ind_map[")):
+                len_names.add(n.targets[0].id)
+
+    def count_of(e):
+        """is e an expression for the remaining count?"""
+        if isinstance(e, ast.Name) and e.id in len_names:
+            return True
+        return isinstance(e, ast.Call) and isinstance(e.func, ast.Name) and e.func.id == "len" and e.args and (
+            (isinstance(e.args[0], ast.Name) and e.args[0].id in set_names) or src_of(e.args[0]).startswith("self.ind_map["))
+
+    def truth(test, c):
+        """value of a test when c holders remain; None if not a test on the count."""
+        if isinstance(test, ast.UnaryOp) and isinstance(test.op, ast.Not):
+            v = truth(test.operand, c)
+            return None if v is None else not v
+        if isinstance(test, ast.Name) and test.id in set_names:
+            return c > 0
+        if isinstance(test, ast.Name) and test.id in len_names:
+            return c > 0
+        if isinstance(test, ast.Compare) and len(test.ops) == 1:
+            l, rr = test.left, test.comparators[0]
+            k = None
+            if count_of(l) and isinstance(const_value(rr, None), int):
+                a, b = c, const_value(rr, None)
+            elif count_of(rr) and isinstance(const_value(l, None), int):
+                a, b = const_value(l, None), c
+            else:
+                return None
+            return {ast.Eq: a == b, ast.NotEq: a != b, ast.Lt: a < b, ast.LtE: a <= b, ast.Gt: a > b, ast.GtE: a >= b}.get(type(test.ops[0]))
+        if isinstance(test, ast.BoolOp):
+            vs = [truth(v, c) for v in test.values]
+            if None in vs:
+                return None
+            return all(vs) if isinstance(test.op, ast.And) else any(vs)
+        return None
+
+    def executed(stmts, c):
+        out = []
+        for st in stmts:
+            if isinstance(st, ast.If):
+                tv = truth(st.test, c)
+                if tv is None:
+                    out += executed(st.body, c) + executed(st.orelse, c)
+                else:
+                    out += executed(st.body if tv else st.orelse, c)
+            elif isinstance(st, ast.Try):
+                out += executed(st.body, c)
+            else:
+                out.append(st)
+        return out
+
+    if not (set_names or len_names):
+        raise AnalysisError("_unlink_inds: the remaining-holder count is not visible")
+    expected = {
+        0: ({("_outer_inds", "discard")}, True, "entry deleted, outer discarded"),
+        1: ({("_inner_inds", "discard"), ("_outer_inds", "add")}, False, "inner discarded, outer added (the bond became dangling)"),
+        2: (set(), False, "nothing: a label that two or more tensors still hold stays inner"),
+        3: (set(), False, "nothing: a label that two or more tensors still hold stays inner"),
+    }
+    for c, (exp, exp_del, text) in expected.items():
+        stmts = executed(loop.body, c)
+        eff = _stmts_effects(stmts, var)
+        dele = any(isinstance(s_, ast.Delete) and src_of(s_.targets[0]) == f"self.ind_map[{var}]" for s_ in stmts)
+        label = {0: "0", 1: "1", 2: ">=2", 3: ">=2"}[c]
+        good = (eff == exp or (c == 0 and ("_outer_inds", "discard") in eff and not any(op == "add" for _, op in eff))) and dele == exp_del
+        if good:
+            r.ok(f"TensorNetwork._unlink_inds[{label}]", sample={"remaining holders": label, "effects": sorted(eff) + (["del ind_map entry"] if dele else [])}, nontrivial=(c != 3))
+        else:
+            r.bad(Finding("pairing", "TensorNetwork._unlink_inds",
+                          f"when {label} holder(s) remain the code performs {sorted(eff)}{' and deletes the entry' if dele else ''}; expected {text}",
+                          where=f"{f.module.relpath}:{f.lineno}", operand=label))
     # discard of the tid from the entry precedes the count
     srcu = src_of(f.node)
     if "tids.discard(tid)" in srcu or f"self.ind_map[{var}].discard(tid)" in srcu:
